@@ -3,7 +3,7 @@
    Model Out/External.v (obj2dict, dump_modules, dict2obj, load_external_modules, External* classes,
    find_used_modules, Project.find), Spec Out/ExternalSpec.v. *)
 From Ford Require Import Base.Str Base.Path Out.Names Out.NamesProofs Out.External Out.ExternalSpec
-     Out.ExternalProofs.
+     Out.ExternalProofs Gen.C16Tables Out.ExternalTablesProofs.
 
 (* ---------------------------------------------------------------- round trip *)
 
@@ -12,12 +12,14 @@ From Ford Require Import Base.Str Base.Path Out.Names Out.NamesProofs Out.Extern
    directory, or a URL with a path ending in "/"), every module m of A and every entity e of m that
    a USE can import: loading what A exported succeeds; B's `use m` finds A's m (none of B's own
    modules has that name) and links it to base/url_of_A(m); `only: e` yields an object named e whose
-   URL is base/url_of_A(e).  Hypotheses: A is as Fortran allows (wf_A); idents contain no '/'. *)
+   URL is base/url_of_A(e).  Only hypothesis on A: it is as Fortran allows (wf_A: its units are
+   modules without nested modules, module names are distinct, and the accessible names of one
+   class in a module are distinct, all case-insensitively).  Names are arbitrary 7-bit strings
+   (operators included): the NameSelector model never puts a '/' into an ident (ident_of_noslash). *)
 Theorem C16_roundtrip : forall A b v locals m e w,
   wf_A A -> base_ok b ->
   In m (a_modules A) -> In e (e_kids m) -> accessible e = true -> pub_class (e_kind e) = Some w ->
   lower_in (e_name m) locals = false ->
-  no_slash (ident_of A (e_id m)) = true -> no_slash (ident_of A (e_id e)) = true ->
   exists tops xm x u mu,
     load_json b (export A v) = Ok tops /\
     find_used_module locals tops (e_name m) = Ok (Some (HExt xm)) /\
@@ -25,7 +27,7 @@ Theorem C16_roundtrip : forall A b v locals m e w,
     used_lookup xm w (e_name e) = Ok (Some x) /\
     x_name x = JStr (e_name e) /\
     kid_url (ident_of A) m e = Some u /\ x_url x = JStr (spec_join b u).
-Proof. exact roundtrip. Qed.
+Proof. exact roundtrip_all. Qed.
 Print Assumptions C16_roundtrip.
 
 (* the whole imported structure: every exported entity, nested ones included, becomes the
@@ -190,3 +192,21 @@ Proof.
   unfold A_ex, all_reqs; cbn [a_pre a_modules app flat_map tree_reqs].
   repeat (apply Forall_cons || apply Forall_nil); intros H; vm_compute in H; intuition discriminate.
 Qed.
+
+(* ---------------------------------------------------------------- the tables of the working tree *)
+
+(* ATTRIBUTES, ENTITIES and the `_project_list`s, METADATA_NAME, the caught exceptions, SUBLINK_TYPES,
+   LINK_TYPES (order included), the order of FortranBase.children and of chain(modules, external_modules),
+   regenerated from the source on every check, are the ones the model uses *)
+Theorem C16_tables_fingerprint :
+  ATTRIBUTES_src = ATTRIBUTES /\
+  ENTITIES_src = map (fun kc => (fst kc, xcls_name (snd kc))) ENTITIES /\
+  ENTITY_LISTS_src = map (fun kc => (fst kc, plist_name (project_list (snd kc)))) ENTITIES /\
+  METADATA_NAME_src = METADATA_NAME /\
+  CAUGHT_src = CAUGHT /\
+  SUBLINK_TYPES_src = SUBLINK_TYPES /\
+  LINK_TYPES_src = map (fun kc => (fst kc, coll_name (snd kc))) LINK_TYPES /\
+  filter (fun k => str_in k ATTRIBUTES) CHILDREN_src = CHILD_ORDER /\
+  USE_CHAIN_src = [s "modules"; s "external_modules"].
+Proof. exact tables_fingerprint. Qed.
+Print Assumptions C16_tables_fingerprint.
